@@ -282,6 +282,66 @@ def desugar_combinators(m, prog=None):
     return m
 
 
+def desugar_ordering_then(m, prog=None):
+    """`a.then_with(|| b)` / `a.then(b)` on `Ordering` are `if a == Equal { b } else { a }` (std's definition): written out, the closure becoming an
+    ordinary call the inliner can splice in.  The test is emitted as `discriminant(a) == 0` (Equal is 0 whatever the width)."""
+    cdefs = _closure_defs(m)
+    n0 = len(m["blocks"])
+    done = 0
+    for bi in range(n0):
+        b = m["blocks"][bi]
+        t = b["term"]
+        if b.get("cleanup") or t["k"] != "call" or "callee" not in t or t.get("target") is None or t["dest"]["p"]:
+            continue
+        path = t["callee"].get("path", "")
+        if path not in ("std::cmp::Ordering::then_with", "std::cmp::Ordering::then") or len(t["args"]) != 2:
+            continue
+        a0, a1 = t["args"]
+        if a0["k"] == "const" or a0["place"]["p"]:
+            continue
+        loc = t.get("loc", {"file": "", "line": None})
+        oty = "std::cmp::Ordering"
+        call_term = None
+        pre = []
+        if path.endswith("then_with"):
+            if a1["k"] == "const" or a1["place"]["p"]:
+                continue
+            ck = cdefs.get(a1["place"]["l"])
+            if ck is None or prog is None or ck not in prog.fns or prog.fns[ck]["mir"]["arg_count"] != 1:
+                continue
+            envty = prog.fns[ck]["mir"]["locals"][1]["ty"]
+            if envty.startswith("&"):
+                l_e = len(m["locals"])
+                m["locals"].append({"ty": envty, "mut": True})
+                pre.append({"k": "assign", "place": {"l": l_e, "p": [], "ty": envty},
+                            "rv": {"k": "ref", "mut": envty.startswith("&mut "), "place": {"l": a1["place"]["l"], "p": [], "ty": a1["place"]["ty"]}}, "loc": loc})
+                carg = {"k": "move", "place": {"l": l_e, "p": [], "ty": envty}}
+            else:
+                carg = {"k": "move", "place": {"l": a1["place"]["l"], "p": [], "ty": a1["place"]["ty"]}}
+            callee = {"path": ck, "full": ck, "local": True, "name": "{closure}", "substs": [], "rkind": "item", "resolved": ck, "rlocal": True, "synth": True}
+            call_term = {"k": "call", "callee": callee, "args": [carg], "dest": t["dest"], "unwind": None, "loc": loc, "target": t["target"]}
+        L = len(m["locals"])
+        l_s, l_d, l_c = L, L + 1, L + 2
+        m["locals"].extend([{"ty": oty, "mut": True}, {"ty": "isize", "mut": True}, {"ty": "bool", "mut": True}])
+        b["stmts"].append({"k": "assign", "place": {"l": l_s, "p": [], "ty": oty}, "rv": {"k": "use", "op": a0}, "loc": loc})
+        b["stmts"].append({"k": "assign", "place": {"l": l_d, "p": [], "ty": "isize"}, "rv": {"k": "discr", "place": {"l": l_s, "p": [], "ty": oty}}, "loc": loc})
+        b["stmts"].append({"k": "assign", "place": {"l": l_c, "p": [], "ty": "bool"},
+                           "rv": {"k": "binop", "op": "Eq", "l": {"k": "move", "place": {"l": l_d, "p": [], "ty": "isize"}}, "r": {"k": "const", "ty": "isize", "int": 0}},
+                           "loc": loc})
+        keep = len(m["blocks"])
+        m["blocks"].append({"stmts": [{"k": "assign", "place": t["dest"], "rv": {"k": "use", "op": {"k": "move", "place": {"l": l_s, "p": [], "ty": oty}}}, "loc": loc}],
+                            "term": {"k": "goto", "target": t["target"]}})
+        other = len(m["blocks"])
+        if call_term is not None:
+            m["blocks"].append({"stmts": pre, "term": call_term})
+        else:
+            m["blocks"].append({"stmts": [{"k": "assign", "place": t["dest"], "rv": {"k": "use", "op": a1}, "loc": loc}], "term": {"k": "goto", "target": t["target"]}})
+        b["term"] = {"k": "switch", "discr": {"k": "move", "place": {"l": l_c, "p": [], "ty": "bool"}}, "discr_ty": "bool",
+                     "targets": [[0, keep]], "otherwise": other, "loc": loc}
+        done += 1
+    return done
+
+
 LOOP_COMBINATORS = ("std::iter::Iterator::for_each", "std::iter::Iterator::find_map")
 
 
@@ -456,6 +516,10 @@ def inline_mir(prog, key, stop, maxdepth=4, _stack=(), max_blocks=6000, max_call
     inlined = []
     if desugar:
         desugar_combinators(m, prog)
+        try:
+            desugar_ordering_then(m, prog)
+        except Exception:
+            pass
         desugar_for_each(m, prog)
         desugar_ne(m, prog)
     # drop cleanup blocks' influence: keep them (ids must stay stable) but cut unwind edges
